@@ -7,7 +7,9 @@ package main
 
 import (
 	"bytes"
+	"encoding/json"
 	"fmt"
+	"os"
 	"sync"
 
 	"github.com/sarchlab/akita/v4/mem/mem"
@@ -294,6 +296,24 @@ func main() {
 	}
 	scs = append(scs, driverScenarios(r)...)
 	r.Quiet = true
+	if r.Replay != "" {
+		if data, err := os.ReadFile(r.Replay); err == nil && bytes.Contains(data, []byte(`"cp-forwarder"`)) {
+			var f struct {
+				Case cpmwCase `json:"case"`
+			}
+			if json.Unmarshal(data, &f) == nil {
+				if sig, msg := cpmwRun(f.Case.Seq); sig != "" {
+					fmt.Printf("  signature: %s\n  %s\nVIOLATION property=C19 replay=%s\n", sig, msg, r.Replay)
+					os.Exit(1)
+				}
+				fmt.Println("replay: no violation")
+				os.Exit(0)
+			}
+		}
+	}
 	r.RunScenarios(scs)
+	if r.Replay == "" {
+		cpMiddlewarePass(r)
+	}
 	r.Finish()
 }
